@@ -118,7 +118,9 @@ func typedTargets(ts *pdus.Tables) []target {
 			continue
 		}
 		seen[k] = true
-		out = append(out, target{name: k + ".IDecode", typ: t, call: func(b []byte) error { return t.New().IDecode(b) }})
+		// a PDU decoder allocates its value, a reader and the strings of its fields: 2 KiB beside 64 octets per input
+		// octet is generous, and small enough to show a one-octet count that is honoured before the input is looked at
+		out = append(out, target{name: k + ".IDecode", typ: t, allocConst: 2 << 10, call: func(b []byte) error { return t.New().IDecode(b) }})
 	}
 	return out
 }
@@ -128,7 +130,7 @@ func dispatcherTargets() []target {
 	for _, fam := range pdus.Families {
 		d := pdus.Dispatchers[fam]
 		fam := fam
-		out = append(out, target{name: "Decode/" + fam, call: func(b []byte) error {
+		out = append(out, target{name: "Decode/" + fam, allocConst: 2 << 10, call: func(b []byte) error {
 			p, err := d(b)
 			if p == nil && err == nil {
 				return errors.New("verifmon: dispatcher returned (nil, nil)")
